@@ -1,5 +1,6 @@
 #include "type_inference.h"
 #include "../../../common/stack_guard.h"
+#include "../ffi_manager.h"
 #include "../managers/types/manager.h"
 #include "../managers/variables/manager.h"
 #include "interpreter.h"
@@ -296,6 +297,21 @@ InferredType TypeInferenceEngine::infer_type(const ASTNode *node) {
                                   node->third.get());
 
     case ASTNodeType::AST_FUNC_CALL: {
+        // module.function() 形式の外部関数呼び出しは、そのモジュールの
+        // use foreign 宣言の戻り値型を持つ（判定は関数呼び出しの評価と同じ）
+        if (node->left && node->left->node_type == ASTNodeType::AST_VARIABLE) {
+            cb::FFIManager *ffi_mgr = interpreter_.get_ffi_manager();
+            if (ffi_mgr && ffi_mgr->isForeignModuleLoaded(node->left->name) &&
+                !interpreter_.find_variable(node->left->name)) {
+                TypeInfo foreign_type =
+                    ffi_mgr->getReturnType(node->left->name, node->name);
+                if (foreign_type != TYPE_UNKNOWN) {
+                    return InferredType(foreign_type,
+                                        type_info_to_string(foreign_type));
+                }
+            }
+        }
+
         // 引数の型を推論
         std::vector<InferredType> arg_types;
         for (const auto &arg : node->arguments) {
@@ -445,6 +461,13 @@ InferredType TypeInferenceEngine::infer_function_return_type(
             }
 
             return inferred;
+        }
+    } else if (cb::FFIManager *ffi_mgr = interpreter_.get_ffi_manager()) {
+        // Cb の関数でなければ、use foreign で宣言された外部関数の戻り値型
+        TypeInfo foreign_type = ffi_mgr->getReturnType("", func_name);
+        if (foreign_type != TYPE_UNKNOWN) {
+            return InferredType(foreign_type,
+                                type_info_to_string(foreign_type));
         }
     }
 
